@@ -11,7 +11,7 @@ import sys, os, json, subprocess, shutil, glob
 
 VERIF = os.path.dirname(os.path.dirname(os.path.abspath(__file__)))
 SCR = os.environ.get("REEVAL_SCR", "/root/scratch/reeval")      # (several instances may run side by side on disjoint seed lists)
-RELATED = {"C01": ["C08"], "C02": ["C03"], "C03": ["C02", "C06"], "C04": ["C05"], "C05": ["C09"], "C06": ["C10", "C04", "C07", "C03"], "C07": ["C06"],
+RELATED = {"C01": ["C08"], "C02": ["C03"], "C03": ["C02", "C06", "C10"], "C04": ["C05"], "C05": ["C09"], "C06": ["C10", "C04", "C07", "C03"], "C07": ["C06"],
            "C08": ["C01"], "C09": ["C05"], "C10": ["C06", "C08"], "C11": ["C12"], "C12": ["C11"], "C13": [], "C14": ["C15"], "C15": ["C14"],
            "C16": ["C14"], "C17": ["C16"], "C18": [], "C19": ["C02"]}
 
